@@ -6,6 +6,7 @@ TRUSTED_BASE = [
     "Lean compiler/runtime executing the model in the driver (incl. Float = C double, libm pow)",
     "Rust harness /verif/harness (drives the real code, dumps its state), python orchestrator ./check",
     "HashMap/DashMap as finite maps, VecDeque as a list, monotone Instant, fastrand as an arbitrary choice < len",
+    "source translators checklib/static_scopes.py (lock / RefCell nesting -> Generated/*.lean, C16s / C17s) and checklib/static_sites.py (lock-site inventory): lexical scanners, trusted",
 ]
 
 HOOK_COMMITS = [
@@ -215,7 +216,7 @@ PROPS = {
         "technique": TECH, "design_ref": "DESIGN.md §7 C13", "assumptions": ["distinct cache names"],
     },
     "C17": {
-        "lean_modules": ["Cachelito.Props.C17"],
+        "lean_modules": ["Cachelito.Props.C17", "Cachelito.Props.C17s"],
         "streams": [sched_stream(nontrivial=["nested-acquisition"]), static_stream()],
         "monitors": ["C17"],
         "rule": "scheduled runs of real threads; a run is non-trivial when some thread acquired a lock while holding another (nesting is what can deadlock); distinct by (schedule, event trace)",
@@ -257,7 +258,7 @@ PROPS = {
         "assumptions": ["distinct cache names"],
     },
     "C16": {
-        "lean_modules": ["Cachelito.Props.C16", "Cachelito.Props.C05a"],
+        "lean_modules": ["Cachelito.Props.C16", "Cachelito.Props.C05a", "Cachelito.Props.C16s"],
         "streams": [core_stream(nontrivial=["eviction", "expiry", "oversize"], quick=540, thorough=9000,
                                 what="L1 over the full product flavour x policy x limit x ttl x max_memory x fw; every operation under catch_unwind, debug assertions and overflow checks on")],
         "monitors": ["C16"],
